@@ -563,7 +563,7 @@ def gen_C05(r, tier):
 def extra_C05(cases, impl):
     """the same records give identical bytes for every thread count, limit, writer and container"""
     bad = []
-    for i in range(0, len(cases) - 1, 2):
+    for i in range(0, len(cases) - 1):
         if not (cases[i].startswith("ofile ") and cases[i + 1].startswith("ofile ")): continue
         a, b = cases[i].split(" "), cases[i + 1].split(" ")
         if a[1:5] == b[1:5] and a[10] == b[10] and impl[i] != impl[i + 1]:
@@ -664,6 +664,7 @@ def gen_C10(r, tier):
     # more than ten thousand short records, handled within a second (progress reporting every 10000 records)
     recs = [bytes(r.choices(NUC, k=12 + r.below(4))) for _ in range(10500 if n <= 400 else 25000)]
     cases.append("s2m 0 7 %d fa %s" % (r.pick([1, 4]), hxlist(recs)))
+    cases.append("m2s 0 7 %d fa %s" % (r.pick([2, 8]), hxlist(recs)))
     cases.append("m2s 12 7 %d fa %s" % (r.pick([2, 8]), hxlist(recs)))
     # controlled schedules through the hooks: TAKE / PUSH (m2s) or WRITE (s2m) / EXIT traces and the resulting lines
     def msched_case(mode, w, m, W, recs, prefix):
@@ -691,9 +692,10 @@ def gen_C10(r, tier):
 def extra_C10(cases, impl):
     """on the implementation itself: m2s is the exact inversion of s2m of the same records"""
     bad = []
-    for i in range(0, len(cases) - 1, 2):
+    for i in range(0, len(cases) - 1):
         a, b = cases[i].split(" "), cases[i + 1].split(" ")
-        if a[0] != "s2m" or b[0] != "m2s" or a[5] != b[5] or any(o.startswith(("PANIC", "CRASH", "NOT-RUN")) for o in impl[i:i + 2]): continue
+        # an s2m case directly followed by the m2s case of the same window, minimiser size, container and records
+        if a[0] != "s2m" or b[0] != "m2s" or a[1:3] != b[1:3] or a[4:] != b[4:] or any(o.startswith(("PANIC", "CRASH", "NOT-RUN")) for o in impl[i:i + 2]): continue
         inv = {}
         try:
             for line in (impl[i].split(";") if impl[i] else []):
